@@ -191,6 +191,10 @@ def main():
         if fl == "asan":
             env["ASAN_OPTIONS"] = "detect_leaks=0:exitcode=97"
         p = subprocess.run([binary(fl), "replay", os.path.abspath(replay)], env=env)
+        if p.returncode < 0:
+            print("replay: the process was killed by signal %d" % -p.returncode)
+            print("VIOLATION property=%s replay=%s" % (pid, os.path.abspath(replay)))
+            sys.exit(1)
         sys.exit(p.returncode if p.returncode in (0, 1) else 2)
 
     t0 = time.time()
@@ -225,6 +229,20 @@ def main():
         rep = r["report"]
         j = r["job"]
         label = j["build"] + ("" if not j["params"] else "[" + ",".join("%s=%s" % kv for kv in sorted(j["params"].items())) + "]")
+        cur = os.path.join(outdir, "job%03d.json.current" % results.index(r))
+        if rep is None and r["rc"] < 0 and r["rc"] != -999 and os.path.exists(cur):
+            # the worker process was killed by a signal (abort, segfault) while executing a case:
+            # the library took the whole process down; the case in flight is the counterexample
+            try:
+                doc = json.load(open(cur))
+                doc["signature"] = "worker-killed-by-signal-%d" % (-r["rc"])
+                doc["detail"] = "the process executing this case was killed by signal %d; stderr tail: %s" % (-r["rc"], r["stderr"][-600:])
+                path = os.path.join(REPLAYS, "%s-%s-killed-%d-%d.json" % (pid, j["build"], os.getpid(), results.index(r)))
+                json.dump(doc, open(path, "w"), indent=1)
+                violations.append(dict(signature=doc["signature"], detail=doc["detail"], replay=path, build=label))
+                continue
+            except Exception as e:  # noqa
+                infra.append("%s: unreadable in-flight case: %s" % (label, e))
         if rep is None:
             # the worker died without a report: crash of the harness process itself
             infra.append("%s shard %d: exit %s without report; stderr tail: %s" % (label, j["shard"], r["rc"], r["stderr"][-1500:]))
